@@ -3,8 +3,12 @@
   (consensus/wal.go, repaired by fixes/F2_wal_repair.diff and fixes/F2b_wal_torn_header_eof.diff).
 
   Vocabulary (Model/C03.lean):
-    `Op`        write p | sync | shift | housekeep | crashRecover k | restart
-    `stepOp`    one step of the byte-exact model; for crashRecover/restart the second
+    `Op`        write p | sync | shift | housekeep | crashRecover k | restart | crashAt p js
+                `crashAt p js`: the writer dies at crash point `p` (while appending, or INSIDE Shift
+                after j of its file-system effects); then one recovery attempt per element of `js`
+                dies INSIDE CloseAndRepair after that many effects; then a recovery completes.
+                `Op.isCrash c` = c is crashRecover or crashAt: "any crash".
+    `stepOp`    one step of the byte-exact model; for crash ops/restart the second
                 component is the record list the recovery loop returned
     `runG`      runs a history and, next to it, the bookkeeping `Ghost`:
                 `log` = records appended and not lost by an earlier crash,
@@ -32,17 +36,19 @@ theorem durable_after_sync (crc : Bytes → UInt32) (cfg : Cfg) (ops : List Op) 
     ∧ (runG crc (Sys.init cfg) {} (ops ++ [.shift])).2.durable = (runG crc (Sys.init cfg) {} (ops ++ [.shift])).2.log := by
   simp [runG_append, runG, stepGhost, Ghost.durable]
 
-/-- **recover_prefix.** After any history and a crash that keeps the synced bytes plus an arbitrary
-    `k`-byte prefix of the unsynced ones, recovery (read loop + CloseAndRepair) returns a prefix of
+/-- **recover_prefix.** After any history (earlier crashes of every kind included) and ANY crash `c` —
+    while appending with an arbitrary `k`-byte prefix of the unsynced bytes kept, inside Shift after
+    any number of its effects, followed by any number of recovery attempts that die inside
+    CloseAndRepair after any number of its effects — the recovery that completes returns a prefix of
     the appended records that contains every durable record, and only records that were appended. -/
-theorem recover_prefix (crc : Bytes → UInt32) (cfg : Cfg) (ops : List Op) (k : Nat)
+theorem recover_prefix (crc : Bytes → UInt32) (cfg : Cfg) (ops : List Op) (c : Op) (hc : c.isCrash)
     (hplain : ∀ op ∈ ops, op.plain) :
     let st := runG crc (Sys.init cfg) {} ops
-    let r := (stepOp crc st.1 (.crashRecover k)).2
+    let r := (stepOp crc st.1 c).2
     r <+: st.2.log ∧ st.2.durable <+: r ∧ ∀ x ∈ r, Op.write x ∈ ops := by
   intro st r
   have hinv := runG_inv crc ops _ _ (init_inv crc cfg) hplain
-  obtain ⟨m, hnm, _, hr, _, _⟩ := crashRecover_spec crc st.1 st.2 k hinv
+  obtain ⟨m, hnm, _, hr, _⟩ := crashOp_spec crc st.1 st.2 c hc hinv
   have hr' : r = st.2.log.take m := hr
   refine ⟨hr' ▸ List.take_prefix _ _, hr' ▸ take_prefix_take _ _ _ hnm, ?_⟩
   intro x hx
@@ -51,28 +57,29 @@ theorem recover_prefix (crc : Bytes → UInt32) (cfg : Cfg) (ops : List Op) (k :
   · simp at h
   · exact h
 
-example : ∀ op ∈ [Op.write [1, 2], .sync, .shift, .housekeep, .write [], .crashRecover 3, .write [7], .restart], op.plain := by
+example : ∀ op ∈ [Op.write [1, 2], .sync, .shift, .housekeep, .write [], .crashRecover 3, .write [7], .restart,
+    .crashAt (.inShift 2 0) [0, 1], .write [8], .crashAt (.appending 5) [3]], op.plain := by
   simp [Op.plain]
+
+example : (Op.crashAt (.inShift 1 4) [1, 0, 2]).isCrash ∧ (Op.crashRecover 7).isCrash := by
+  simp [Op.isCrash]
 
 /-- After recovery the files hold exactly the frames of the returned records (the torn tail is gone),
     nothing is buffered and the whole tail counts as durable: the log is ready for appending. -/
-theorem recover_leaves_whole_frames (crc : Bytes → UInt32) (cfg : Cfg) (ops : List Op) (k : Nat)
+theorem recover_leaves_whole_frames (crc : Bytes → UInt32) (cfg : Cfg) (ops : List Op) (c : Op) (hc : c.isCrash)
     (hplain : ∀ op ∈ ops, op.plain) :
     let st := runG crc (Sys.init cfg) {} ops
-    let s := stepOp crc st.1 (.crashRecover k)
+    let s := stepOp crc st.1 c
     s.1.files.flatten = frames crc s.2 ∧ s.1.buf = [] := by
   intro st s
   have hinv := runG_inv crc ops _ _ (init_inv crc cfg) hplain
-  have hinv' := step_inv crc st.1 st.2 (.crashRecover k) hinv (by simp [Op.plain])
+  obtain ⟨m, _, _, hr, hinv'⟩ := crashOp_spec crc st.1 st.2 c hc hinv
   have hstream := hinv'.stream
-  simp only [stepGhost] at hstream
-  have hbuf : s.1.buf = [] := by
-    show (recoverReopen crc st.1.cfg (st.1.crash k)).1.buf = []
-    unfold recoverReopen
-    split
-    · simp [openWriter]; split <;> rfl
-    · simp [openWriter]; split <;> rfl
+  simp only at hstream
+  have hbuf : s.1.buf = [] := crashOp_buf crc st.1 c hc
   refine ⟨?_, hbuf⟩
+  have hr' : s.2 = st.2.log.take m := hr
+  rw [hr']
   have : s.1.files.flatten = s.1.older.flatten ++ (s.1.tail ++ s.1.buf) := by
     simp [Writer.files, hbuf]
   rw [this]
@@ -80,15 +87,16 @@ theorem recover_leaves_whole_frames (crc : Bytes → UInt32) (cfg : Cfg) (ops : 
 
 /-- **recover_then_append.** Records appended (and synced) after a recovery are returned, after the
     recovered ones, by the next recovery — whatever the second crash point. -/
-theorem recover_then_append (crc : Bytes → UInt32) (cfg : Cfg) (ops : List Op) (k k' : Nat)
+theorem recover_then_append (crc : Bytes → UInt32) (cfg : Cfg) (ops : List Op) (c c' : Op)
+    (hc : c.isCrash) (hc' : c'.isCrash)
     (ps : List Bytes) (hplain : ∀ op ∈ ops, op.plain) (hps : ∀ p ∈ ps, p.length + 8 < 2 ^ 32) :
     let st := runG crc (Sys.init cfg) {} ops
-    let s1 := stepOp crc st.1 (.crashRecover k)
+    let s1 := stepOp crc st.1 c
     let w2 := run crc s1.1 (ps.map Op.write ++ [.sync])
-    (stepOp crc w2 (.crashRecover k')).2 = s1.2 ++ ps := by
+    (stepOp crc w2 c').2 = s1.2 ++ ps := by
   intro st s1 w2
   have hinv := runG_inv crc ops _ _ (init_inv crc cfg) hplain
-  have hinv1 := step_inv crc st.1 st.2 (.crashRecover k) hinv (by simp [Op.plain])
+  have hinv1 := step_inv crc st.1 st.2 c hinv (isCrash_plain c hc)
   have hpl : ∀ op ∈ ps.map Op.write ++ [.sync], op.plain := by
     intro op hop
     simp only [List.mem_append, List.mem_map, List.mem_singleton] at hop
@@ -97,12 +105,12 @@ theorem recover_then_append (crc : Bytes → UInt32) (cfg : Cfg) (ops : List Op)
     · simp [Op.plain]
   have hinv2 := runG_inv crc (ps.map Op.write ++ [.sync]) _ _ hinv1 hpl
   rw [runG_fst] at hinv2
-  have hg : (runG crc s1.1 (stepGhost crc st.1 st.2 (.crashRecover k)) (ps.map Op.write ++ [.sync])).2
+  have hg : (runG crc s1.1 (stepGhost crc st.1 st.2 c) (ps.map Op.write ++ [.sync])).2
       = { log := s1.2 ++ ps, nsynced := (s1.2 ++ ps).length, retired := st.2.retired } := by
-    rw [runG_append, runG_writes]
+    rw [runG_append, runG_writes, stepGhost_crash crc st.1 st.2 c hc]
     simp [runG, stepGhost, s1]
   rw [hg] at hinv2
-  obtain ⟨m, hnm, hm, hr, _, _⟩ := crashRecover_spec crc _ _ k' hinv2
+  obtain ⟨m, hnm, hm, hr, _⟩ := crashOp_spec crc _ _ c' hc' hinv2
   rw [hr]
   simp only at hnm hm
   have : m = (s1.2 ++ ps).length := by omega
@@ -114,11 +122,11 @@ example : ∀ p ∈ [[1, 2, 3], ([] : Bytes)], p.length + 8 < 2 ^ 32 := by simp
     recovery, after any number of further append/sync/shift/housekeeping/crash/recover cycles —
     except for the `retired` oldest records that housekeeping rounds removed in between together
     with their whole segment files (retention, see `retire_scope`). -/
-theorem synced_never_lost (crc : Bytes → UInt32) (cfg : Cfg) (ops1 ops2 : List Op) (k : Nat)
+theorem synced_never_lost (crc : Bytes → UInt32) (cfg : Cfg) (ops1 ops2 : List Op) (c : Op) (hc : c.isCrash)
     (h1 : ∀ op ∈ ops1, op.plain) (h2 : ∀ op ∈ ops2, op.plain) :
     let st1 := runG crc (Sys.init cfg) {} ops1
     let st2 := runG crc (Sys.init cfg) {} (ops1 ++ ops2)
-    st1.2.durable.drop (st2.2.retired - st1.2.retired) <+: (stepOp crc st2.1 (.crashRecover k)).2
+    st1.2.durable.drop (st2.2.retired - st1.2.retired) <+: (stepOp crc st2.1 c).2
     ∧ st1.2.durable.drop (st2.2.retired - st1.2.retired) <+: st2.2.log := by
   intro st1 st2
   have hinv1 := runG_inv crc ops1 _ _ (init_inv crc cfg) h1
@@ -129,26 +137,27 @@ theorem synced_never_lost (crc : Bytes → UInt32) (cfg : Cfg) (ops1 ops2 : List
     rcases List.mem_append.mp hop with h | h
     · exact h1 op h
     · exact h2 op h
-  have hrec := recover_prefix crc cfg (ops1 ++ ops2) k h12
+  have hrec := recover_prefix crc cfg (ops1 ++ ops2) c hc h12
   rw [← hst2] at hmono
   exact ⟨hmono.trans hrec.2.1, hmono.trans (List.take_prefix _ _)⟩
 
 /-- … and when no housekeeping round happens in between, nothing at all is lost. -/
-theorem synced_never_lost_without_retention (crc : Bytes → UInt32) (cfg : Cfg) (ops1 ops2 : List Op) (k : Nat)
+theorem synced_never_lost_without_retention (crc : Bytes → UInt32) (cfg : Cfg) (ops1 ops2 : List Op)
+    (c : Op) (hc : c.isCrash)
     (h1 : ∀ op ∈ ops1, op.plain) (h2 : ∀ op ∈ ops2, op.plain) (hnohk : ∀ op ∈ ops2, op ≠ .housekeep) :
     let st1 := runG crc (Sys.init cfg) {} ops1
     let st2 := runG crc (Sys.init cfg) {} (ops1 ++ ops2)
-    st1.2.durable <+: (stepOp crc st2.1 (.crashRecover k)).2 := by
+    st1.2.durable <+: (stepOp crc st2.1 c).2 := by
   intro st1 st2
-  have h := (synced_never_lost crc cfg ops1 ops2 k h1 h2).1
+  have h := (synced_never_lost crc cfg ops1 ops2 c hc h1 h2).1
   have hst2 : st2 = runG crc st1.1 st1.2 ops2 := runG_append crc ops1 ops2 _ _
   have hr : st2.2.retired = st1.2.retired := by
     rw [hst2]; exact runG_retired_eq crc ops2 _ _ hnohk
-  have h' : st1.2.durable.drop (st2.2.retired - st1.2.retired) <+: (stepOp crc st2.1 (.crashRecover k)).2 := h
+  have h' : st1.2.durable.drop (st2.2.retired - st1.2.retired) <+: (stepOp crc st2.1 c).2 := h
   rw [hr, Nat.sub_self, List.drop_zero] at h'
   exact h'
 
-example : ∀ op ∈ [Op.write [5], .sync, .crashRecover 2], op ≠ Op.housekeep := by simp
+example : ∀ op ∈ [Op.write [5], .sync, .crashRecover 2, .crashAt (.inShift 3 0) [1]], op ≠ Op.housekeep := by simp
 
 /-! ### housekeeping (retention) -/
 
@@ -181,6 +190,75 @@ theorem history_keeps_open_tail (crc : Bytes → UInt32) (cfg : Cfg) (ops : List
     (run crc (Sys.init cfg) ops).tailUnlinked = false :=
   (run_flags crc cfg hcfg ops _ (openWriter_flags cfg {})).2
 
+/-! ### crash points inside CloseAndRepair and inside Shift -/
+
+/-- **repair is resumable.** However many recovery attempts die inside CloseAndRepair, and after
+    however many of its file-system effects each (`js`), the recovery that finally completes returns
+    exactly what an undisturbed recovery would have returned. -/
+theorem repair_resumable (crc : Bytes → UInt32) (cfg : Cfg) (ops : List Op) (p : CrashPoint) (js : List Nat)
+    (hplain : ∀ op ∈ ops, op.plain) :
+    let st := runG crc (Sys.init cfg) {} ops
+    (stepOp crc st.1 (.crashAt p js)).2 = (stepOp crc st.1 (.crashAt p [])).2 := by
+  intro st
+  exact crashAt_resumable crc st.1 st.2 p js (runG_inv crc ops _ _ (init_inv crc cfg) hplain)
+
+/-- What a crash inside Shift leaves, effect by effect: before the fsync (j = 0, 1) it is an ordinary
+    crash of the appending writer; after the fsync (j = 2) a crash right after `sync`; after the
+    creation of the next segment (j ≥ 3) a crash right after `shift`. -/
+theorem crashInShift_cases (w : Writer) (j k : Nat) :
+    (j < 2 → w.crashInShift j k = w.crash k)
+    ∧ (j = 2 → w.crashInShift j k = w.sync.crash 0)
+    ∧ (j > 2 → w.crashInShift j k = w.shift.crash 0) := by
+  refine ⟨fun h => by simp [Writer.crashInShift, h], fun h => by simp [Writer.crashInShift, h], fun h => ?_⟩
+  have h1 : ¬ j < 2 := by omega
+  have h2 : j ≠ 2 := by omega
+  simp [Writer.crashInShift, h1, h2]
+
+/-! ### altered bytes (CRC mismatch path) -/
+
+/-- **never a corrupted record.** The stored bytes are the frames of the records `A` followed by ANY
+    bytes `B` (an altered record and whatever follows it) on which the checksum does its job
+    (`CrcRejects`: the stored CRC field differs from the CRC of the bytes the reader checks). Then the
+    read loop returns exactly `A`: the altered record and everything behind it is never returned. -/
+theorem altered_record_never_returned (crc : Bytes → UInt32) (A : List Bytes) (B : Bytes)
+    (hA : ∀ p ∈ A, p.length + 8 < 2 ^ 32) (hB : CrcRejects crc B) :
+    (readAll crc (frames crc A ++ B)).1 = A :=
+  (readAll_frames_append crc A B hA hB).1
+
+/-- … in particular for a record whose payload and/or checksum field were overwritten (by `p'`, `c`)
+    in a way the checksum detects, whatever follows (`T`). -/
+theorem overwritten_record_never_returned (crc : Bytes → UInt32) (A : List Bytes) (c : Nat) (p' T : Bytes)
+    (hA : ∀ p ∈ A, p.length + 8 < 2 ^ 32) (hp : p'.length + 8 < 2 ^ 32)
+    (hdet : (crc p').toNat ≠ c % 2 ^ 32) :
+    (readAll crc (frames crc A ++ (be32 c ++ be32 p'.length ++ p' ++ T))).1 = A :=
+  altered_record_never_returned crc A _ hA (altered_frame_rejects crc c p' T hp hdet)
+
+/-- the hypothesis is satisfiable and not trivial (here for a toy checksum; that CRC-32C rejects every
+    single-byte change is exercised on the real code by the `poke` cases of the correspondence run) -/
+example : let crc : Bytes → UInt32 := fun p => UInt32.ofNat (p.foldl (fun a b => a + b.toNat) 0)
+    (crc [1, 2, 4]).toNat ≠ (crc [1, 2, 3]).toNat % 2 ^ 32 := by decide
+
+/-- Recovery (read loop + CloseAndRepair) on such a disk returns `A` and cuts the altered record and
+    everything behind it off: afterwards the files hold exactly the frames of `A`. -/
+theorem recover_cuts_altered_record (crc : Bytes → UInt32) (d : Disk) (A : List Bytes) (B : Bytes)
+    (hne : d.files ≠ []) (hflat : d.files.flatten = frames crc A ++ B) (hBne : B ≠ [])
+    (hA : ∀ p ∈ A, p.length + 8 < 2 ^ 32) (hB : CrcRejects crc B) :
+    ∃ e d', recover crc d = some (A, e, d') ∧ e ≠ .eof ∧ d'.files.flatten = frames crc A := by
+  obtain ⟨h1, h2, h3⟩ := readAll_frames_append crc A B hA hB
+  have hv : (frames crc A).length ≤ d.files.flatten.length := by rw [hflat]; simp
+  have hcut : (repairLoop (frames crc A).length d.files).flatten = frames crc A := by
+    rw [repairLoop_flatten _ _ hv, hflat]; exact List.take_left' rfl
+  have hr : ∃ e, readAll crc (frames crc A ++ B) = (A, (frames crc A).length, e) ∧ e ≠ .eof :=
+    ⟨(readAll crc (frames crc A ++ B)).2.2, Prod.ext h1 (Prod.ext h2 rfl), h3 hBne⟩
+  obtain ⟨e, hr, hne'⟩ := hr
+  unfold recover
+  rw [if_neg hne, hflat]
+  simp only [hr]
+  cases e with
+  | eof => exact absurd rfl hne'
+  | unexpectedEOF => exact ⟨.unexpectedEOF, _, rfl, by simp, hcut⟩
+  | corrupted => exact ⟨.corrupted, _, rfl, by simp, hcut⟩
+
 /-! ### the defects of the unrepaired code, as concrete witnesses -/
 
 /-- F2 (`os.Remove(fileFor(w.id, idx))`): segment 0 holds the synced record `[1,2,3]`, segment 1 a torn
@@ -206,6 +284,21 @@ theorem orig_torn_header_loses_synced_append :
     Orig.readAll crc disk = ([[1, 2, 3]], 11, .eof)
     ∧ Orig.readAll crc (disk ++ frame crc [9, 9]) = ([[1, 2, 3]], 11, .unexpectedEOF)
     ∧ readAll crc disk = ([[1, 2, 3]], 11, .unexpectedEOF) := by
+  decide
+
+/-- F2c (truncate first, then `os.Remove` of the later segments in ascending order): segment 0 holds the
+    synced record `[1,2,3]`, segment 1 is empty, segment 2 starts with a torn record. If the process
+    dies after the first Remove, segments 0 and 2 remain: OpenWALForRead fails on the missing
+    segment 1 (ENOENT, which consensus.applyWAL takes for "no WAL"), the synced record is
+    unreachable. The repaired order (from the tail downwards) leaves segments 0 and 1. -/
+theorem orig_repair_crash_between_removes_hides_wal :
+    let crc : Bytes → UInt32 := fun _ => 0
+    let seg0 := frame crc [1, 2, 3]
+    let seg2 := (frame crc [4, 5, 6]).take 5
+    Orig.repairPartialAsc 11 1 [(0, seg0), (1, []), (2, seg2)] = [(0, seg0), (2, seg2)]
+    ∧ Orig.openable [(0, seg0), (2, seg2)] = false
+    ∧ repairPartial 11 1 [seg0, [], seg2] = [seg0, []]
+    ∧ (readAll crc ([seg0, []] : List Bytes).flatten).1 = [[1, 2, 3]] := by
   decide
 
 end Goloop.C03
